@@ -138,6 +138,25 @@ def do_ktrace(req):
     except EXC as e:
         out['hints_out'] = 'raise:' + type(e).__name__
         out['hints_claims'] = []
+    # ... and through the real trace reader get_proof_hints: an LLVMRewriteTrace with the rule events, the (truthful)
+    # configurations after them, and function / hook events interleaved as the request says
+    try:
+        from proof_generation.llvm_proof_hint import LLVMRewriteTrace, LLVMRuleEvent, LLVMFunctionEvent, LLVMHookEvent
+        from proof_generation.k.kore_convertion.rewrite_steps import get_proof_hints
+        evs = []
+        for k, st in enumerate(req['steps']):
+            for kind in (req.get('noise') or [[]] * len(req['steps']))[k]:
+                evs.append(LLVMFunctionEvent('f', '0:0', ()) if kind == 'fun' else LLVMHookEvent('h', '0:0', (), kterm(req['init'])))
+            r = req['definition']['rules'][st['rule'] - req['definition'].get('ordinal_offset', 0)]
+            evs.append(LLVMRuleEvent(st['rule'], tuple((k2, kterm(v)) for k2, v in st['subst'].items())))
+            evs.append(kterm(ksubst(r['r'], st['subst'])))
+        tr = LLVMRewriteTrace((), kterm(req['init']), tuple(evs))
+        pe3 = ExecutionProofExp.from_proof_hints(get_proof_hints(tr, sem), sem)
+        out['llvm_out'] = 'ok'
+        out['llvm_claims'] = [B.to_json(c) for c in pe3._claims]
+    except EXC as e:
+        out['llvm_out'] = 'raise:' + type(e).__name__
+        out['llvm_claims'] = []
     return out
 
 
